@@ -183,6 +183,25 @@ func (i *IRCServer) Unmarshal(data []byte) (uint64, error) {
 		return 0, err
 	}
 
+	// FSM.Restore calls Unmarshal after it handed the new server to the HTTP
+	// handlers, so they can run while the state is still being filled in.
+	// The two parts are locked one after the other (not nested), because
+	// other code paths acquire sessionsMu and ConfigMu in either order.
+	if err := i.unmarshalState(&snapshot); err != nil {
+		return 0, err
+	}
+	if err := i.unmarshalConfig(&snapshot); err != nil {
+		return 0, err
+	}
+	return snapshot.LastIncludedIndex, nil
+}
+
+func (i *IRCServer) unmarshalState(snapshot *pb.Snapshot) error {
+	i.sessionsMu.Lock()
+	defer i.sessionsMu.Unlock()
+	i.lastProcessedMu.Lock()
+	defer i.lastProcessedMu.Unlock()
+
 	for _, s := range snapshot.Sessions {
 		channels := make(map[lcChan]bool, len(s.Channels))
 		for _, channel := range s.Channels {
@@ -266,7 +285,7 @@ func (i *IRCServer) Unmarshal(data []byte) (uint64, error) {
 		for idx, ban := range c.Bans {
 			re, err := regexp.Compile(ban.Regexp)
 			if err != nil {
-				return 0, err
+				return err
 			}
 			bans[idx] = banPattern{
 				pattern: ban.Pattern,
@@ -288,7 +307,7 @@ func (i *IRCServer) Unmarshal(data []byte) (uint64, error) {
 	for nickName, s := range snapshot.Svsholds {
 		duration, err := time.ParseDuration(s.Duration)
 		if err != nil {
-			return 0, err
+			return err
 		}
 		i.svsholds[NickToLower(nickName)] = svshold{
 			added:    timestampToTime(s.Added),
@@ -300,6 +319,13 @@ func (i *IRCServer) Unmarshal(data []byte) (uint64, error) {
 		Id:    snapshot.LastProcessed.Id,
 		Reply: snapshot.LastProcessed.Reply,
 	}
+	return nil
+}
+
+func (i *IRCServer) unmarshalConfig(snapshot *pb.Snapshot) error {
+	i.ConfigMu.Lock()
+	defer i.ConfigMu.Unlock()
+
 	operators := make([]config.IRCOp, len(snapshot.Config.Irc.Operators))
 	for idx, operator := range snapshot.Config.Irc.Operators {
 		operators[idx] = config.IRCOp{
@@ -315,15 +341,15 @@ func (i *IRCServer) Unmarshal(data []byte) (uint64, error) {
 	}
 	sessionExpiration, err := time.ParseDuration(snapshot.Config.SessionExpiration)
 	if err != nil {
-		return 0, err
+		return err
 	}
 	postMessageCooloff, err := time.ParseDuration(snapshot.Config.PostMessageCooloff)
 	if err != nil {
-		return 0, err
+		return err
 	}
 	hmacSecret, err := hex.DecodeString(snapshot.Config.CaptchaHmacSecret)
 	if err != nil {
-		return 0, err
+		return err
 	}
 	i.Config = config.Network{
 		Revision: snapshot.Config.Revision,
@@ -344,5 +370,5 @@ func (i *IRCServer) Unmarshal(data []byte) (uint64, error) {
 	if i.Config.Banned == nil {
 		i.Config.Banned = make(map[string]string)
 	}
-	return snapshot.LastIncludedIndex, nil
+	return nil
 }
